@@ -50,6 +50,7 @@ func init() {
 		Explain: "Decides the structural half of per-member event order: every MemberEvent handed to the pipeline is sent by a blocking send while the memberLock write section that made the status change is still held (so sends for one member are serialised in status-change order), and every pipeline stage (snapshot tee, internal-query stage, coalesce loop) is a single goroutine per channel that forwards in the same goroutine that received, never through a spawned goroutine or deferred closure. With FIFO channels this yields an in-order subsequence. Coalescer per-member uniqueness is C17's.",
 		Run:     runC16,
 		Mutants: []Mutant{
+			{Name: "leave-event-after-reap", File: "serf/serf.go", Func: "func (s *Serf) handleNodeLeaveIntent(", Old: "\t\ts.leftMembers = append(s.leftMembers, member)\n", New: "\t\ts.leftMembers = append(s.leftMembers, member)\n\t\tif leaveMsg.Prune {\n\t\t\ts.handlePrune(member)\n\t\t}\n", Expect: "R4"},
 			{Name: "stage-keeps-backlog", File: "serf/internal_query.go", Func: "func (s *serfQueries) stream(", Old: "\t\t\t\ts.outCh <- e\n", New: "\t\t\t\tbacklog = append(backlog, e)\n\t\t\t\ts.outCh <- backlog[0]\n\t\t\t\tbacklog = backlog[1:]\n", Old2: "func (s *serfQueries) stream() {\n", New2: "func (s *serfQueries) stream() {\n\tvar backlog []Event\n", Expect: "R2|(*serfQueries).stream"},
 			{Name: "send-after-unlock", File: "serf/serf.go", Func: "func (s *Serf) handleNodeUpdate(", Old: "\ts.memberLock.Lock()\n\tdefer s.memberLock.Unlock()\n", New: "\ts.memberLock.Lock()\n\ts.memberLock.Unlock()\n", Expect: "R1"},
 			{Name: "async-member-event", File: "serf/serf.go", Func: "func (s *Serf) eraseNode(", Old: "\t\ts.config.EventCh <- MemberEvent{\n\t\t\tType:    EventMemberReap,\n\t\t\tMembers: []Member{m.Member},\n\t\t}\n", New: "\t\tev := MemberEvent{\n\t\t\tType:    EventMemberReap,\n\t\t\tMembers: []Member{m.Member},\n\t\t}\n\t\tgo func() { s.config.EventCh <- ev }()\n", Expect: "R1"},
@@ -581,6 +582,24 @@ func isFreshBase(fa *ssa.FieldAddr) bool {
 func runC16(c *an.Ctx) {
 	c.Rule("R1 every MemberEvent send on config.EventCh is a blocking send executed with Serf.memberLock write-held, in a function that never releases that lock explicitly, and not from a spawned goroutine")
 	c.Rule("R2 each pipeline stage is started by exactly one go statement per constructed channel and forwards in the goroutine that received (no go/defer around the forward)")
+	c.Rule("R4 the reap is a member's last event: after a call that erases the member (eraseNode, handlePrune) no member event is sent on the same path")
+	{
+		n4 := 0
+		for _, f := range c.P.FuncsIn(serf) {
+			for _, er := range an.CallsTo(f, "(*Serf).eraseNode", "(*Serf).handlePrune") {
+				n4++
+				later := an.ReachFrom(f, er, nil, func(in ssa.Instruction) bool {
+					snd, ok := in.(*ssa.Send)
+					if !ok || !strings.HasSuffix(an.Path(snd.Chan), "config.EventCh") {
+						return false
+					}
+					return strings.Contains(an.TypeLabel(an.Strip(snd.X).Type()), "MemberEvent")
+				})
+				c.Add(later == nil, "R4", an.FuncName(f)+":nothing-after-reap", er, "no member event is sent after the member was erased (the reap stays the last event the application sees for it)", "reachability from the erasing call")
+			}
+		}
+		c.Floor("R4", "erasing calls", n4, 4)
+	}
 	locks := an.NewLocks(c.P)
 	n := 0
 	for _, fn := range c.P.FuncsIn(serf) {
